@@ -21,6 +21,7 @@ import (
 	"math/big"
 	"sort"
 	"strings"
+	"sync/atomic"
 	"time"
 
 	"github.com/zmap/zcrypto/x509"
@@ -85,6 +86,7 @@ type qcert struct {
 	SPKIHash [32]byte // SHA-256 of the certificate's own SubjectPublicKeyInfo
 	IssCN    string
 	IssOrg   []string
+	IssHex   string // hex SHA-256 of the issuer's SPKI (set once all fixtures exist)
 }
 
 func (q *qcert) issuerSPKIHash() [32]byte { return q.Issuer.SPKIHash }
@@ -171,6 +173,10 @@ func buildFixtures() *fixtures {
 	{
 		c := fx.MustMint(fx.CertSpec{CN: "Blocked RSA root", Key: "rsa1024", IsCA: true, Serial: 78}, nil)
 		add(mkQ("blocked-rsa/self-signed", c, nil))
+	}
+	for _, q := range f.queries {
+		ih := q.issuerSPKIHash()
+		q.IssHex = hex.EncodeToString(ih[:])
 	}
 	f.crlsetBlocked[0] = f.cas["ca1"].SPKIHash
 	f.crlsetBlocked[1] = f.byName["blocked-rsa"].SPKIHash
@@ -412,8 +418,53 @@ type verdict struct{ sig, detail, query string }
 type ctxEval struct {
 	f *fixtures
 	h ev.Hist
+	// per (prefix, category) answer counters, folded into h by flush
+	hc map[string]map[string]*[2]int64
 	// counters
 	parses, checks int64
+}
+
+func (x *ctxEval) count(prefix, cat string, rev bool) {
+	if x.hc == nil {
+		x.hc = map[string]map[string]*[2]int64{}
+	}
+	mp := x.hc[prefix]
+	if mp == nil {
+		mp = map[string]*[2]int64{}
+		x.hc[prefix] = mp
+	}
+	p := mp[cat]
+	if p == nil {
+		p = new([2]int64)
+		mp[cat] = p
+	}
+	if rev {
+		p[1]++
+	} else {
+		p[0]++
+	}
+}
+
+func (x *ctxEval) flush() ev.Hist {
+	for prefix, mp := range x.hc {
+		for cat, p := range mp {
+			if p[0] > 0 {
+				x.h[prefix+cat+revStr(false)] += p[0]
+			}
+			if p[1] > 0 {
+				x.h[prefix+cat+revStr(true)] += p[1]
+			}
+		}
+	}
+	x.hc = nil
+	return x.h
+}
+
+func revStr(rev bool) string {
+	if rev {
+		return " → revoked=true"
+	}
+	return " → revoked=false"
 }
 
 func eqOrg(a, b []string) bool { return strings.Join(a, "\x00") == strings.Join(b, "\x00") }
@@ -531,7 +582,7 @@ func evalCRLSet(x *ctxEval, m *Model, enc []byte) (out []verdict) {
 		}
 		issB, ownB := blockedHash(ih), blockedHash(q.SPKIHash)
 		var got *google.Entry
-		if p, msg, site := ev.Try(func() { got = set.Check(q.Z, hex.EncodeToString(ih[:])) }); p {
+		if p, msg, site := ev.Try(func() { got = set.Check(q.Z, q.IssHex) }); p {
 			out = append(out, verdict{"crlset.Check: panic@" + site + ": " + ev.MsgClass(msg), msg, q.Name})
 			continue
 		}
@@ -562,10 +613,10 @@ func evalCRLSet(x *ctxEval, m *Model, enc []byte) (out []verdict) {
 			} else if rev && listedHS && (got.SerialNumber == nil || got.SerialNumber.Cmp(q.Serial) != 0) {
 				out = append(out, verdict{"crlset.Check: returned entry carries another serial", "", q.Name})
 			}
-			x.h[fmt.Sprintf("crlset: %s → revoked=%v", cat, rev)]++
+			x.count("crlset: ", cat, rev)
 			continue
 		}
-		amb = append(amb, fmt.Sprintf("%s→revoked=%v", cat, rev))
+		amb = append(amb, cat+revStr(rev))
 		if rev != wantA {
 			misA++
 		}
@@ -575,7 +626,7 @@ func evalCRLSet(x *ctxEval, m *Model, enc []byte) (out []verdict) {
 		if rev != wantC {
 			misC++
 		}
-		x.h[fmt.Sprintf("crlset(blocked reading open): %s → revoked=%v", cat, rev)]++
+		x.count("crlset(blocked reading open): ", cat, rev)
 	}
 	if misA > 0 && misB > 0 && misC > 0 {
 		set := map[string]bool{}
@@ -784,7 +835,7 @@ func evalOneCRL(x *ctxEval, m *Model, enc []byte) (out []verdict) {
 		} else if rev && !blk && (got.SerialNumber == nil || got.SerialNumber.Cmp(q.Serial) != 0) {
 			out = append(out, verdict{"onecrl.Check: returned entry carries another serial", "", q.Name})
 		}
-		x.h[fmt.Sprintf("onecrl: %s → revoked=%v", cat, rev)]++
+		x.count("onecrl: ", cat, rev)
 	}
 	return out
 }
@@ -847,7 +898,7 @@ func evalSST(x *ctxEval, m *Model, enc []byte) (out []verdict) {
 		} else if rev && (got.SerialNumber == nil || got.SerialNumber.Cmp(q.Serial) != 0) {
 			out = append(out, verdict{"sst.Check: returned entry carries another serial", "", q.Name})
 		}
-		x.h[fmt.Sprintf("sst: %s → revoked=%v", cat, rev)]++
+		x.count("sst: ", cat, rev)
 	}
 	return out
 }
@@ -917,12 +968,16 @@ func evalModel(x *ctxEval, m *Model) ([]verdict, []byte) {
 func main() {
 	ev.Main("C15", "model_checking", func(c *ev.Ctx) {
 		f := buildFixtures()
-		ordered := !c.Quick()
-		lists := serialLists(ordered)
-		c.Set("serial_lists_per_issuer", len(lists))
+		subsets := serialLists(false)
+		sequences := serialLists(true)
+		c.Set("serial_lists_per_issuer_subsets", len(subsets))
 		c.Set("query_certificates", len(f.queries))
-		kind := ev.Pick(c, "subsets (alphabet order)", "sequences without repetition (every order)")
-		c.Rule("ALL models: 3 issuer slots (ca1 'CN=Rev CA 1', ca2 'CN=Rev CA 2,O=Org', ca3 'CN=Rev CA 1,O=Org'), each absent or carrying a serial list = " + kind + " of size 1..3 over {1,255,256,2^64,128} (CRLSet additionally: present with 0 serials) x every subset of the format's 2 blocked keys (none for SST) x 2 layouts (slot order grouped / reversed order interleaved, blocked records last/first, SST property elements none|SHA-1|empty+header-lookalike); each model encoded as CRLSet, OneCRL JSON and SST by the harness' own encoders, parsed, compared with the model, then queried with EVERY pool certificate: 6 CAs (3 listed-capable, unrelated, same-name-other-key, same-key-other-name) x serials {alphabet, 77} leaves, the CA certificates, 2 same-issuer+serial twins, RSA/ECDSA blocked-key certificates with same-subject-other-key and same-key-other-subject variants and a self-signed one; a model is non-trivial/distinct by (format, issuer lists, blocked mask, layout)")
+		extra := ""
+		if !c.Quick() {
+			c.Set("serial_lists_per_issuer_sequences", len(sequences))
+			extra = " PLUS (thorough) the same with every ORDER of each serial list (sequences without repetition of length 1..3) x blocked keys {none, both} x layouts {both for OneCRL/SST, slot order for CRLSet}, models already covered by the first part skipped;"
+		}
+		c.Rule("ALL models: 3 issuer slots (ca1 'CN=Rev CA 1', ca2 'CN=Rev CA 2,O=Org', ca3 'CN=Rev CA 1,O=Org'), each absent or carrying a serial list = subset of size 1..3 of {1,255,256,2^64,128} in alphabet order (CRLSet additionally: present with 0 serials) x every subset of the format's 2 blocked keys (none for SST) x 2 layouts (slot order grouped / reversed order interleaved, blocked records last/first, SST property elements none|SHA-1|empty+header-lookalike);" + extra + " each model encoded as CRLSet, OneCRL JSON and SST by the harness' own encoders, parsed, compared with the model, then queried with EVERY pool certificate: 6 CAs (3 listed-capable, unrelated, same-name-other-key, same-key-other-name) x serials {alphabet, 77} leaves, the CA certificates, 2 same-issuer+serial twins, RSA/ECDSA blocked-key certificates with same-subject-other-key and same-key-other-subject variants and a self-signed one; a model is non-trivial/distinct by (format, issuer lists, blocked mask, layout)")
 		c.Assume(
 			"query certificate features (raw issuer/subject names, serial, SPKI) are read with crypto/x509 from the DER; expected membership is computed from the model only",
 			"CRLSet blocked SPKIs are base64(SHA-256(SPKI)) header strings as in Chrome's published sets (testdata/crl-set-6375); Check is called with the hex SHA-256 of the issuer's SPKI (the key form of IssuerLists, as verifier.go does)",
@@ -957,66 +1012,102 @@ func main() {
 			}
 			vs, enc := evalModel(x, &m)
 			report(&m, enc, vs)
-			c.Merge(x.h)
+			c.Merge(x.flush())
 			c.States.Add(1)
 			c.Transitions.Add(x.parses + x.checks)
 			return
 		}
 
+		type part struct {
+			name    string
+			lists   [][]int
+			masks   []int
+			layouts []int
+			skipAsc bool // skip models whose lists are all in alphabet order (covered by the subsets part)
+		}
+		ascending := func(l []int) bool {
+			for i := 1; i < len(l); i++ {
+				if l[i] < l[i-1] {
+					return false
+				}
+			}
+			return true
+		}
+	formats:
 		for _, format := range []string{"crlset", "onecrl", "sst"} {
-			// per-slot options: 0 = absent, 1..len(lists) = list, (crlset) len(lists)+1 = present but empty
-			opts := len(lists) + 1
-			if format == "crlset" {
-				opts++
-			}
-			nBlocked := 4
+			allMasks, bothMasks := []int{0, 1, 2, 3}, []int{0, 3}
 			if format == "sst" {
-				nBlocked = 1
+				allMasks, bothMasks = []int{0}, []int{0}
 			}
-			total := opts * opts * opts * nBlocked * 2
-			c.Set("models_"+format, total)
-			slotList := func(o int) []int {
-				switch {
-				case o == 0:
-					return nil
-				case o <= len(lists):
-					return lists[o-1]
+			parts := []part{{"subsets", subsets, allMasks, []int{0, 1}, false}}
+			if !c.Quick() {
+				lay := []int{0, 1}
+				if format == "crlset" {
+					lay = []int{0}
 				}
-				return []int{}
+				parts = append(parts, part{"sequences", sequences, bothMasks, lay, true})
 			}
-			var nModels, nParses, nChecks int64
-			done := c.Parallel((total+255)/256, func(w, chunk int) {
-				x := &ctxEval{f: f, h: ev.Hist{}}
-				var n int64
-				for i := chunk * 256; i < (chunk+1)*256 && i < total; i++ {
-					k := i
-					layout := k % 2
-					k /= 2
-					bl := k % nBlocked
-					k /= nBlocked
-					m := &Model{Format: format, Blocked: bl, Layout: layout, Issuers: [][]int{slotList(k % opts), slotList(k / opts % opts), slotList(k / opts / opts)}}
-					vs, enc := evalModel(x, m)
-					if len(vs) > 0 {
-						report(m, enc, vs)
-					}
-					n++
-					if c.WantSample() && i%9973 == 4321 {
-						c.Sample(map[string]any{"model": m.String(), "encoded_bytes": len(enc), "queries": len(f.queries)})
-					}
+			for _, pt := range parts {
+				pt := pt
+				lists := pt.lists
+				// per-slot options: 0 = absent, 1..len(lists) = list, (crlset) len(lists)+1 = present but empty
+				opts := len(lists) + 1
+				if format == "crlset" {
+					opts++
 				}
-				c.Merge(x.h)
-				c.States.Add(n)
-				c.Distinct.Add(n)
-				c.Transitions.Add(x.parses + x.checks)
-				c.Traces.Add(x.checks)
-				c.Evaluations.Add(x.checks + x.parses)
-				_ = nModels
-				_, _ = nParses, nChecks
-			})
-			if !done {
-				c.Incomplete("time budget hit while enumerating " + format + " models")
-				break
+				per := len(pt.masks) * len(pt.layouts)
+				total := opts * opts * opts * per
+				slotList := func(o int) []int {
+					switch {
+					case o == 0:
+						return nil
+					case o <= len(lists):
+						return lists[o-1]
+					}
+					return []int{}
+				}
+				var evaluated int64Counter
+				done := c.Parallel((total+255)/256, func(w, chunk int) {
+					x := &ctxEval{f: f, h: ev.Hist{}}
+					var n int64
+					for i := chunk * 256; i < (chunk+1)*256 && i < total; i++ {
+						k := i
+						layout := pt.layouts[k%len(pt.layouts)]
+						k /= len(pt.layouts)
+						bl := pt.masks[k%len(pt.masks)]
+						k /= len(pt.masks)
+						m := &Model{Format: format, Blocked: bl, Layout: layout, Issuers: [][]int{slotList(k % opts), slotList(k / opts % opts), slotList(k / opts / opts)}}
+						if pt.skipAsc && ascending(m.Issuers[0]) && ascending(m.Issuers[1]) && ascending(m.Issuers[2]) {
+							continue
+						}
+						vs, enc := evalModel(x, m)
+						if len(vs) > 0 {
+							report(m, enc, vs)
+						}
+						n++
+						if c.WantSample() && i%9973 == 4321 {
+							c.Sample(map[string]any{"model": m.String(), "encoded_bytes": len(enc), "queries": len(f.queries)})
+						}
+					}
+					c.Merge(x.flush())
+					evaluated.add(n)
+					c.States.Add(n)
+					c.Distinct.Add(n)
+					c.Transitions.Add(x.parses + x.checks)
+					c.Traces.Add(x.checks)
+					c.Evaluations.Add(x.checks + x.parses)
+				})
+				c.Set("models_"+format+"_"+pt.name, evaluated.get())
+				if !done {
+					c.Incomplete("time budget hit while enumerating " + format + " models (" + pt.name + " part)")
+					break formats
+				}
 			}
 		}
 	})
 }
+
+type int64Counter struct{ v atomic.Int64 }
+
+func (c *int64Counter) add(n int64) { c.v.Add(n) }
+func (c *int64Counter) get() int64  { return c.v.Load() }
